@@ -12,6 +12,7 @@ package main
 // case counts on the oracle side only.
 
 import (
+	"sort"
 	"bytes"
 	"compress/gzip"
 	"encoding/binary"
@@ -227,6 +228,7 @@ type c15Spec struct {
 	chunks [][]byte
 	tags   []string
 	nCalls int
+	snaps  map[int]uint32 // classic pcap: call index -> Reader.SetSnaplen value set just before that call
 }
 
 func c15Calls(format string, nbytes int) int {
@@ -253,6 +255,18 @@ func (s c15Spec) toCase() Case {
 	}
 	if s.fail {
 		ops = append(ops, "fail")
+	}
+	if len(s.snaps) > 0 {
+		var ks []int
+		for k := range s.snaps {
+			ks = append(ks, k)
+		}
+		sort.Ints(ks)
+		var it []string
+		for _, k := range ks {
+			it = append(it, fmt.Sprintf("%d.%d", k, s.snaps[k]))
+		}
+		ops = append(ops, "ss:"+strings.Join(it, ","))
 	}
 	return Case{Prop: "C15pcap", Ops: ops}
 }
@@ -339,6 +353,51 @@ func (c15pcap) Gen(rng *rand.Rand, tier string) []Case {
 			}
 			if format == "pcap" && i%3 == 0 {
 				emit(f, c15Spec{zc: zc, gz: true, chunks: c15RandSplit(rng, f.data, false), tags: []string{"gzip"}})
+			}
+		}
+		// 1b. classic pcap: the consumer changes the snap length between reads (raise after the first read so
+		// that a later, larger record needs a larger zero-copy buffer; lower it; 0; maximum)
+		if format == "pcap" {
+			for i := 0; i < 24*mult; i++ {
+				f := c15GenPcap(rng, 300)
+				sn := map[int]uint32{}
+				for k, n := 0, 1+rng.Intn(3); k < n; k++ {
+					var v uint32
+					switch rng.Intn(6) {
+					case 0:
+						v = 0
+					case 1:
+						v = 0xffffffff
+					case 2:
+						v = uint32(rng.Intn(16))
+					default:
+						v = uint32(rng.Intn(400))
+					}
+					sn[rng.Intn(6)] = v
+				}
+				spec := c15Spec{zc: i%3 != 0, chunks: [][]byte{f.data}, snaps: sn, tags: []string{"setsnaplen"}}
+				if i%4 == 0 {
+					spec.chunks = c15RandSplit(rng, f.data, false)
+				}
+				emit(f, spec)
+			}
+			// small header snap length, records growing beyond it, limit raised after k reads
+			for k := 0; k <= 3; k++ {
+				for _, zc := range []bool{true, false} {
+					hdr := []byte{0xd4, 0xc3, 0xb2, 0xa1, 2, 0, 4, 0, 0, 0, 0, 0, 0, 0, 0, 0, 8, 0, 0, 0, 1, 0, 0, 0}
+					data := append([]byte(nil), hdr...)
+					for j, l := range []int{4, 8, 64, 9, 300, 2} {
+						rec := make([]byte, 16+l)
+						binary.LittleEndian.PutUint32(rec[0:], uint32(1600000000+j))
+						binary.LittleEndian.PutUint32(rec[8:], uint32(l))
+						binary.LittleEndian.PutUint32(rec[12:], uint32(l))
+						for x := 0; x < l; x++ {
+							rec[16+x] = byte(x + j)
+						}
+						data = append(data, rec...)
+					}
+					emit(c15File{format: "pcap", data: data}, c15Spec{zc: zc, chunks: [][]byte{data}, snaps: map[int]uint32{k: 1500}, tags: []string{"setsnaplen"}})
+				}
 			}
 		}
 		// 2. every field of header and records forced to boundary values
@@ -536,6 +595,14 @@ func c15Parse(c Case) c15Spec {
 			s.chunks = append(s.chunks, b)
 		case "fail":
 			s.fail = true
+		case "ss":
+			s.snaps = map[int]uint32{}
+			for _, it := range strings.Split(arg, ",") {
+				k, v, _ := strings.Cut(it, ".")
+				ki, _ := strconv.Atoi(k)
+				vi, _ := strconv.ParseUint(v, 10, 32)
+				s.snaps[ki] = uint32(vi)
+			}
 		}
 	}
 	return s
@@ -593,6 +660,16 @@ func (c15pcap) Run(c Case) Result {
 			}
 		}
 	}
+	var sched []map[int]uint32
+	if len(s.snaps) > 0 && s.format == "pcap" {
+		sched = []map[int]uint32{s.snaps}
+		res.Tags = append(res.Tags, "setsnaplen-between-reads")
+		for _, v := range s.snaps {
+			if uint64(v) > declared {
+				declared = uint64(v)
+			}
+		}
+	}
 	slack := uint64(64 << 10)
 	if s.gz || looksGzip {
 		slack = 1 << 20
@@ -601,7 +678,7 @@ func (c15pcap) Run(c Case) Result {
 	if s.gz {
 		feed = c15Rechunk(c15Gzip(concat), s.chunks)
 	}
-	main := runReader(s.format, s.zc, s.nCalls, &chunkReader{chunks: feed, fail: s.fail, dataErr: s.de}, true)
+	main := runReader(s.format, s.zc, s.nCalls, &chunkReader{chunks: feed, fail: s.fail, dataErr: s.de}, true, sched...)
 	switch {
 	case s.gz:
 		res.Obs = []string{"gzip"}
@@ -635,7 +712,7 @@ func (c15pcap) Run(c Case) Result {
 		}
 	}
 	// chunking invariance: the same bytes as one chunk, error delivered separately
-	canon := runReader(s.format, s.zc, s.nCalls, &chunkReader{chunks: [][]byte{concat}, fail: s.fail}, false)
+	canon := runReader(s.format, s.zc, s.nCalls, &chunkReader{chunks: [][]byte{concat}, fail: s.fail}, false, sched...)
 	mo, co := main.obs(), canon.obs()
 	if strings.Join(mo, "|") != strings.Join(co, "|") {
 		cl := "C15:chunking"
@@ -646,7 +723,7 @@ func (c15pcap) Run(c Case) Result {
 	}
 	// a read error surfaces as that error where the clean stream reports its end
 	if s.fail {
-		clean := runReader(s.format, s.zc, s.nCalls, bytes.NewReader(concat), false)
+		clean := runReader(s.format, s.zc, s.nCalls, bytes.NewReader(concat), false, sched...)
 		want := clean.obs()
 		for i, o := range want {
 			if o == "eof" || o == "ueof" || o == "hdr=eof" || o == "hdr=ueof" {
